@@ -560,7 +560,7 @@ def rule_Q(ctx):
         def __iter__(self):
             return iter(self.tracks)
     try:
-        for (w_, h_), res, margin in (((10.0, 4.0), None, 0.0), ((10.0, 0.39), None, 0.0), ((7.0, 5.0), (2.0, 2.0), 0.0), ((7.0, 5.0), (3.0, 2.0), 0.05), ((4.0, 9.0), None, 0.05)):
+        for (w_, h_), res, margin in (((10.0, 4.0), (0.9, 0.9), 0.0), ((10.0, 0.39), None, 0.0), ((7.0, 5.0), (2.0, 2.0), 0.0), ((7.0, 5.0), (3.0, 2.0), 0.05), ((0.43, 9.0), None, 0.05), ((4.0, 9.0), (0.3, 0.7), 0.05)):
             trs = [TrackS([Coord(0.0, 0.0), Coord(w_, h_)]), TrackS([Coord(w_, 0.0), Coord(w_, h_)]), TrackS([Coord(0.0, h_), Coord(w_ / 2, h_)])]
             coll = Coll(trs, BboxS(0.0, w_, 0.0, h_))
             ix = absint.instance(ctx, SI, {}, fn)
@@ -604,13 +604,227 @@ def rule_Q(ctx):
     ctx.extra['C08.Q interpreted calls'] = n['cases']
 
 
+def rule_S(ctx):
+    """C08.S the same obligations on grids of other shapes - more rows than columns, a single column, a single row: registration of
+    tracks that run along cell centres (every row, every column, a U shape), point / cell / track queries, windows of every radius up to
+    beyond the larger grid dimension"""
+    import itertools
+    import math
+    from .. import absint, orders
+    f0 = _m(ctx, '__getCell')
+
+    class Coord(orders.PyStub):
+        isa = ('ENUCoords',)
+
+        def __init__(self, x, y, z=0):
+            self.x, self.y = x, y
+
+        def getX(self):
+            return self.x
+
+        def getY(self):
+            return self.y
+
+        def __repr__(self):
+            return '(%g, %g)' % (self.x, self.y)
+
+    class ObsS(orders.PyStub):
+        def __init__(self, c):
+            self.position = c
+
+    class TrackS(orders.PyStub):
+        isa = ('Track',)
+
+        def __init__(self, coords):
+            self.obs = [ObsS(c) for c in coords]
+
+        def size(self):
+            return len(self.obs)
+
+        def __len__(self):
+            return len(self.obs)
+
+        def getObs(self, i):
+            return self.obs[i]
+
+        def __getitem__(self, i):
+            return self.obs[i]
+
+        def __iter__(self):
+            return iter(self.obs)
+
+        def getFirstObs(self):
+            return self.obs[0]
+    fn = absint.funcs(ctx, 'tracklib.core.spatial_index', {'ENUCoords': lambda x, y, z=0: Coord(x, y), 'GeoCoords': lambda x, y, z=0: Coord(x, y)})
+    found = {}
+    n_calls = 0
+    for CS, LS in ((2, 5), (1, 4), (4, 1), (3, 3)):
+        def index(fill):
+            grid = [[([('cell', i, j)] if fill else []) for j in range(LS)] for i in range(CS)]
+            return absint.instance(ctx, SI, {'grid': grid, 'csize': CS, 'lsize': LS, 'xmin': 0.0, 'ymin': 0.0, 'xmax': float(CS), 'ymax': float(LS),
+                                             'dX': 1.0, 'dY': 1.0, 'inventaire': set(), 'collection': None, 'verbose': False}, fn)
+        shape = {'grid (columns, rows)': [CS, LS]}
+
+        def call(ix, method, *a, **kw):
+            nonlocal n_calls
+            n_calls += 1
+            try:
+                return ix.call(method, *a, **kw)
+            except orders.Unsupported as ex:
+                raise shape_error('SpatialIndex.%s not interpretable: %s' % (method, ex), f0.loc())
+        try:
+            # windows of every radius
+            for i, j, u in itertools.product(range(CS), range(LS), range(0, max(CS, LS) + 2)):
+                want = {(a, b) for a in range(max(i - u, 0), min(i + u + 1, CS)) for b in range(max(j - u, 0), min(j + u + 1, LS))}
+                got = call(index(True), '__neighboringcells', i, j, u, False)
+                gs = set(tuple(c) for c in got) if isinstance(got, (list, set)) else None
+                if gs is None or not want <= gs or any(not (0 <= a < CS and 0 <= b < LS) for a, b in gs):
+                    found.setdefault('window', ('__neighboringcells', 'the window of radius u around a cell is every cell within u columns and u rows of it, clipped to the grid only',
+                                                dict(shape, cell=[i, j], u=u, returned=sorted(gs) if gs is not None else repr(got), expected=sorted(want))))
+                data = call(index(True), 'neighborhood', Coord(i + 0.5, j + 0.5), None, u)
+                wd = {('cell', a, b) for a, b in want}
+                if not isinstance(data, (list, set, tuple)) or not wd <= set(data):
+                    found.setdefault('nb-pt', ('neighborhood', 'neighborhood(point, unit=u) returns the data of every cell within u cells of the one containing the point',
+                                               dict(shape, point=[i + 0.5, j + 0.5], u=u, missing=sorted(map(repr, wd - set(data if isinstance(data, (list, set, tuple)) else []))))))
+            # tracks along cell centres: registration and queries
+            lines = []
+            for j in range(LS):
+                lines.append(('row %d' % j, [Coord(0.5, j + 0.5), Coord(CS - 0.5, j + 0.5)], {(i, j) for i in range(CS)}))
+            for i in range(CS):
+                lines.append(('column %d' % i, [Coord(i + 0.5, 0.5), Coord(i + 0.5, LS - 0.5)], {(i, j) for j in range(LS)}))
+            if CS >= 2 and LS >= 2:
+                lines.append(('U shape', [Coord(0.5, LS - 0.5), Coord(0.5, 0.5), Coord(CS - 0.5, 0.5), Coord(CS - 0.5, LS - 0.5)],
+                              {(0, j) for j in range(LS)} | {(i, 0) for i in range(CS)} | {(CS - 1, j) for j in range(LS)}))
+            for num, (lname, coords, cells) in enumerate(lines):
+                ix = index(False)
+                t = TrackS(coords)
+                call(ix, 'addFeature', t, num)
+                miss = sorted(c_ for c_ in cells if num not in ix.fields['grid'][c_[0]][c_[1]])
+                if miss:
+                    found.setdefault('register', ('addFeature', 'addFeature registers the feature number in every cell its segments pass through',
+                                                  dict(shape, track=lname, vertices=[repr(c) for c in coords], **{'cells without the feature': miss})))
+                got = call(index(True), 'request', t)
+                wd = {('cell',) + c_ for c_ in cells}
+                if not isinstance(got, (list, set, tuple)) or not wd <= set(got):
+                    found.setdefault('req-trk', ('request', 'request(track) returns the data of every cell crossed by any of its segments',
+                                                 dict(shape, track=lname, missing=sorted(map(repr, wd - set(got if isinstance(got, (list, set, tuple)) else []))))))
+                # two features sharing cells: both stay registered everywhere
+                ix2 = index(False)
+                call(ix2, 'addFeature', t, 0)
+                other = lines[(num + 1) % len(lines)]
+                call(ix2, 'addFeature', TrackS(other[1]), 1)
+                miss2 = sorted(c_ for c_ in other[2] if 1 not in ix2.fields['grid'][c_[0]][c_[1]]) + sorted(c_ for c_ in cells if 0 not in ix2.fields['grid'][c_[0]][c_[1]])
+                if miss2:
+                    found.setdefault('register2', ('addFeature', 'registering a second feature leaves both features in all their cells',
+                                                   dict(shape, tracks=[lname, other[0]], **{'cells without their feature': miss2})))
+        except (IndexError, KeyError, TypeError, AttributeError, ZeroDivisionError, orders.Raised) as ex:
+            found.setdefault('fails', ('request', 'registration and queries do not fail inside the extent', dict(shape, exception='%s: %s' % (type(ex).__name__, ex))))
+    for key, (method, desc, wit) in sorted(found.items()):
+        ctx.violation('C08.S', _m(ctx, method) if method.startswith('__') else ctx.prog.func(SI + '.' + method), desc, wit, key=key)
+    if not found:
+        ctx.ok('C08.S', f0, 'windows of every radius, registration along rows / columns / a U shape, point and track queries on grids 2x5, 1x4, 4x1, 3x3 [%d interpreted calls]' % n_calls)
+    ctx.extra['C08.S interpreted calls'] = n_calls
+
+
+def rule_N(ctx):
+    """C08.N a network and its index: the index built by createSpatialIndex covers every vertex of every edge geometry (curved edges that
+    leave the hull of the junctions included), registers edge number k under k, and an edge added afterwards is registered under its own
+    position; point queries on an edge return that edge"""
+    import math
+    from .. import absint, orders, netmodel
+    f = ctx.prog.func('tracklib.core.network.Network.createSpatialIndex')
+    H = netmodel.Harness(ctx)
+    fn = H.fn
+    for q in ('tracklib.core.spatial_index.SpatialIndex', 'tracklib.core.track_collection.TrackCollection', 'tracklib.core.bbox.Bbox'):
+        if q not in ctx.prog.classes:
+            raise anchor_error('class %s not found' % q, q)
+        absint.classref(ctx, q, fn)
+    absint.operator_table(ctx, fn)
+    fn['__globals__']['NAN'] = float('nan')
+    P, O = netmodel.P, netmodel.O
+    P.__name__ = P.__qualname__ = 'ENUCoords'
+    fn['ENUCoords'] = P
+    fn['__globals__']['ENUCoords'] = P
+    found = {}
+    n_q = 0
+
+    def build(edges_geom):
+        """edges_geom: list of vertex lists; nodes are the end vertices (merged by position)"""
+        net = H.Network()
+        nodes = {}
+
+        def node(xy):
+            if xy not in nodes:
+                nodes[xy] = H.Node(len(nodes), P(*xy))
+            return nodes[xy]
+        for k, g in enumerate(edges_geom):
+            add(net, nodes, node, k, g)
+        return net, nodes, node
+
+    def add(net, nodes, node, k, g):
+        tr = H.Track([O(P(*xy)) for xy in g], 'u', 'e%d' % k)
+        e = H.Edge(k, tr)
+        e.fields['orientation'] = 0
+        e.fields['weight'] = 1.0
+        net.call('addEdge', e, node(g[0]), node(g[-1]))
+
+    def check(net, k, g, label, case):
+        nonlocal n_q
+        ix = net.fields.get('spatial_index')
+        for (x0, y0), (x1, y1) in zip(g, g[1:]):
+            for w in (0.0, 0.5, 1.0):
+                px, py = x0 + w * (x1 - x0), y0 + w * (y1 - y0)
+                n_q += 1
+                try:
+                    got = ix.call('request', P(px, py))
+                except orders.Unsupported as ex:
+                    raise shape_error('SpatialIndex.request not interpretable: %s' % ex, f.loc())
+                except (IndexError, KeyError, TypeError, AttributeError, ZeroDivisionError, orders.Raised) as ex:
+                    got = '%s: %s' % (type(ex).__name__, str(ex)[:120])
+                if not isinstance(got, (list, set, tuple)) or k not in got:
+                    found.setdefault(label, ('a point query taken on an edge of the network returns that edge (its position in the network)',
+                                             dict(case, edge=k, **{'point on the edge': [px, py], 'returned': got if not isinstance(got, (list, set, tuple)) else sorted(got)})))
+                    return
+    nets = {
+        'grid of straight edges': [[(0, 0), (10, 0)], [(10, 0), (10, 10)], [(0, 0), (0, 10)], [(0, 10), (10, 10)]],
+        'a hairpin whose vertices leave the hull of the junctions': [[(0, 0), (10, 0)], [(10, 0), (14, 6), (10, 14), (0, 10)], [(0, 10), (0, 0)]],
+        'a loop attached to one junction (both ends on the same node)': [[(0, 0), (10, 0)], [(10, 0), (16, -5), (20, 0), (16, 5), (10, 0)]],
+    }
+    for label, geoms in nets.items():
+        for res in ((2.0, 2.0), (4.0, 3.0)):
+            case = {'network': label, 'resolution': res}
+            net, nodes, node = build(geoms)
+            try:
+                net.call('createSpatialIndex', res, 0.05, False)
+            except orders.Unsupported as ex:
+                raise shape_error('Network.createSpatialIndex not interpretable: %s' % ex, f.loc())
+            except (IndexError, KeyError, TypeError, AttributeError, ZeroDivisionError, orders.Raised) as ex:
+                found.setdefault('fails', ('the index of a network can be built', dict(case, exception='%s: %s' % (type(ex).__name__, str(ex)[:160]))))
+                continue
+            for k, g in enumerate(geoms):
+                check(net, k, g, 'initial', case)
+            # an edge added after the index exists (inside the indexed extent)
+            late = [(0, 0), (5, 5), (10, 10)] if label.startswith('grid') else [(0, 0), (5, 3), (10, 0)]
+            k = len(geoms)
+            try:
+                add(net, nodes, node, k, late)
+            except orders.Unsupported as ex:
+                raise shape_error('Network.addEdge not interpretable: %s' % ex, f.loc())
+            except (IndexError, KeyError, TypeError, AttributeError, ZeroDivisionError, orders.Raised) as ex:
+                found.setdefault('fails', ('an edge can be added to an indexed network', dict(case, exception='%s: %s' % (type(ex).__name__, str(ex)[:160]))))
+                continue
+            check(net, k, late, 'late', dict(case, **{'edge added after the index was built': late}))
+    for key, (desc, wit) in sorted(found.items()):
+        ctx.violation('C08.N', f, desc, wit, node=f.node, key=key)
+    if not found:
+        ctx.ok('C08.N', f, 'point queries on every edge (initial and added later; straight, hairpin, loop) return the edge under its own position [%d queries]' % n_q, node=f.node)
+    ctx.extra['C08.N queries'] = n_q
+
+
 RULES = [
     ('C08.Q', rule_Q, 'quick'),
-    ('C08.K', rule_K, 'quick'),
-    ('C08.M', rule_M, 'quick'),
-    ('C08.B', rule_B, 'quick'),
+    ('C08.S', rule_S, 'quick'),
+    ('C08.N', rule_N, 'quick'),
     ('C08.U', rule_U, 'quick'),
-    ('C08.I', rule_I, 'quick'),
-    ('C08.T', rule_T, 'quick'),
 ]
-MIN_OBLIGATIONS = 14
+MIN_OBLIGATIONS = 5
